@@ -75,7 +75,19 @@ def write_source(kind, path, cols, *, row_group_size=None, decoy_rows=None):
         from pyarrow import parquet
 
         table = pa.table({k: pa.array(np.ascontiguousarray(v.astype(v.dtype.newbyteorder("=")))) for k, v in cols.items()})
-        parquet.write_table(table, path, row_group_size=row_group_size or len(next(iter(cols.values()))))
+        if isinstance(row_group_size, (list, tuple)):
+            # irregular row groups (files written batch-wise or concatenated): the given sizes, cycled
+            n, pos, i = table.num_rows, 0, 0
+            with parquet.ParquetWriter(path, table.schema) as writer:
+                while pos < n or (n == 0 and i == 0):
+                    size = max(1, int(row_group_size[i % len(row_group_size)]))
+                    writer.write_table(table.slice(pos, size), row_group_size=size)
+                    pos += size
+                    i += 1
+                    if n == 0:
+                        break
+        else:
+            parquet.write_table(table, path, row_group_size=row_group_size or len(next(iter(cols.values()))))
     else:
         raise ValueError(kind)
     return path
